@@ -93,3 +93,48 @@ func VerifC40Pick() {
 	}
 	verif_reach("end")
 }
+
+// VerifC40SlotGroups: a policy with two geolocations (US-Center and Europe) and two slots gives two slot groups; the
+// keeper re-scores the providers for each group on the difference to the previous group (CalcSlots, GroupSlots,
+// Subtract, CalcPairingScore - the loop of getPairingForClient).  For every group the score every provider carries
+// into the draw is its stake times its geo score for that group's geolocation.
+func VerifC40SlotGroups() {
+	n := verif_param("providers", 2)
+	stakes := make([]int64, n)
+	geos := make([]int32, n)
+	scores := make([]*PairingScore, n)
+	for i := 0; i < n; i++ {
+		stakes[i] = int64(verif_nondet_in("provider.stake", 1, 1<<20))
+		geos[i] = int32(verif_nondet_range("provider.geolocation", 1, 3)) // 1 = USC, 2 = EU, 3 = both
+		entry := &epochstoragetypes.StakeEntry{Address: string(rune('a' + i)), Geolocation: geos[i],
+			Stake: sdk.Coin{Denom: "ulava", Amount: math.NewInt(stakes[i])}, DelegateTotal: sdk.Coin{Denom: "ulava", Amount: math.ZeroInt()}}
+		scores[i] = NewPairingScore(entry, math.LegacyZeroDec())
+	}
+	policy := &planstypes.Policy{GeolocationProfile: int32(planstypes.Geolocation_USC) | int32(planstypes.Geolocation_EU), MaxProvidersToPair: 2}
+	slots := CalcSlots(policy)
+	groups := GroupSlots(slots)
+	verif_assert("one-slot-group-per-geolocation", len(groups) == 2)
+	near := math.LegacyNewDec(maxGeoLatency)
+	farUSCfromEU := math.LegacyNewDec(maxGeoLatency).QuoInt64(170) // provider in Europe, slot asks for US-Center
+	farEUfromUSC := math.LegacyNewDec(maxGeoLatency).QuoInt64(170) // provider in US-Center, slot asks for Europe
+	prev := NewPairingSlotGroup(NewPairingSlot(-1))
+	for g, group := range groups {
+		diff := group.Subtract(prev)
+		err := CalcPairingScore(scores, GetStrategy(), diff)
+		verif_assert("group-scores-computed", err == nil)
+		want := int32(planstypes.Geolocation_USC)
+		far := farUSCfromEU
+		if g == 1 {
+			want, far = int32(planstypes.Geolocation_EU), farEUfromUSC
+		}
+		for i := 0; i < n; i++ {
+			cost := far
+			if geos[i]&want != 0 {
+				cost = near
+			}
+			verif_assert("score-carried-into-the-draw-is-stake-times-geo-score-of-the-group", scores[i].Score.Equal(math.LegacyNewDec(stakes[i]).Mul(cost)))
+		}
+		prev = group
+	}
+	verif_reach("end")
+}
